@@ -180,9 +180,11 @@ def gen_sim_cases(rng, n):
         else:
             m = rng.choice(markets[:2])
             nxt = sim.fundamentals.get_fundamental_price(market_id=m.market_id, time=m.get_time() + 1)
-            yield SimCase("Simulator._update_time_on_market", sim._update_time_on_market, [sim, m],
-                          [(m, "_update_time")], world,
-                          ext=[(sim.fundamentals, "get_fundamental_price", [m.market_id, m.get_time() + 1], nxt)])
+            c = SimCase("Simulator._update_time_on_market", sim._update_time_on_market, [sim, m],
+                        [(m, "_update_time")], world,
+                        ext=[(sim.fundamentals, "get_fundamental_price", [m.market_id, m.get_time() + 1], nxt)])
+            c.exclude = ["Fundamentals.get_fundamental_price"]
+            yield c
 
 
 py_checks.GENS["simdispatch"] = gen_sim_cases
